@@ -76,7 +76,9 @@ func (r *FnRun) interfere(st *State, p PtrVal, t types.Type) {
 	cur := r.load(st, p, "atomic").(Term)
 	nv := r.fresh("atom", cur.Sort)
 	r.assumeRange(st, nv, t)
-	r.assume(Ge(nv, cur))
+	if !md.Free {
+		r.assume(Ge(nv, cur))
+	}
 	if md.Rely != nil {
 		r.assume(r.relyHolds(st, md, p, key, nv, pkg))
 	}
@@ -234,8 +236,10 @@ func (r *FnRun) atomicWriteCheckCond(st *State, p PtrVal, cond Term, nv Val, whe
 		return
 	}
 	cur := r.load(st, p, where).(Term)
-	r.oblige("MONOTONE", where, Imp(cond, Ge(nv.(Term), cur)), st)
-	if md.Rely != nil {
+	if !md.Free {
+		r.oblige("MONOTONE", where, Imp(cond, Ge(nv.(Term), cur)), st)
+	}
+	if md.Rely != nil && !md.Free {
 		r.guarMode = true
 		g := r.relyHolds(st, md, p, key, nv.(Term), pkg)
 		r.guarMode = false
